@@ -29,17 +29,27 @@
 (* (NextWhole, Poll) so that the real calls are replayed.                  *)
 (*                                                                         *)
 (* Genuine defects of the pinned tree are modelled behind boolean          *)
-(* constants (TRUE = repaired behaviour):                                  *)
+(* constants (TRUE = repaired behaviour, FALSE = the code as found):       *)
 (*   FixCloseRace   publisher.h:223  advance_suspend_lk returned early on  *)
-(*                  _closed without advancing                              *)
-(*   FixGetValue    publisher.h:232-250 get_value_lk of the skipping modes *)
-(*                  did not record the position it delivers, and `== _pos` *)
-(*                  missed positions past the end                          *)
-(*   FixBlocking    publisher.h:442-448 next_awt::operator bool went       *)
-(*                  through co_awaiter::wait(), i.e. value(), not          *)
-(*                  check_next()                                           *)
-(*   FixCopyParked  publisher.h:188-191 copy of a parked subscriber took   *)
-(*                  the pre-incremented position                           *)
+(*                  _closed without advancing: close() between ready() and *)
+(*                  subscribe() re-delivers the previous value (or loses   *)
+(*                  the last one).  Repaired: advance first, park only if  *)
+(*                  not closed.                                            *)
+(*   FixGetValue    publisher.h:232-250  get_value_lk did not leave the    *)
+(*                  registration in step with what it returned: the        *)
+(*                  skipping modes did not record the position of the      *)
+(*                  value they deliver (the next call delivers it again),  *)
+(*                  an all_values subscriber that fell out of the window   *)
+(*                  was not dropped for good (a polled next simply walks   *)
+(*                  on: gap without end of stream), and `_pos == l._pos`   *)
+(*                  missed positions past the end (old value / read of an  *)
+(*                  empty deque after a polled end of stream).             *)
+(*   FixBlocking    publisher.h:442-448  next_awt::operator bool went      *)
+(*                  through co_awaiter::wait(), which ends in value(), not *)
+(*                  in check_next(): a blocking next() that waits returns  *)
+(*                  bool(previous value).                                  *)
+(*   FixCopyParked  publisher.h:188-191  the copy of a parked subscriber   *)
+(*                  took the pre-incremented position and skipped a value. *)
 (***************************************************************************)
 EXTENDS Integers, Sequences, FiniteSets, TLC
 
@@ -53,7 +63,7 @@ CONSTANTS NSubs,        \* subscriber identities 1..NSubs (an identity can be re
           MaxJoin,      \* bound on subscribe events
           AtPos,        \* positions subscribe-at-position may use (those <= pos-1)
           MaxKick,      \* bound on kick events
-          Serial,          \* TRUE: the wake-ups of one publisher call directly follow its critical section
+          Serial,       \* TRUE: the wake-ups of one publisher call directly follow its critical section
           CopyBusy,     \* TRUE: a subscriber may be copied while it is parked
           FixCloseRace, FixGetValue, FixBlocking, FixCopyParked
 
